@@ -28,6 +28,9 @@ type vWorld struct {
 	probes   []vHandlerCall // calls seen by functions registered with AddFunction
 	pending  chan error     // the channel returned by the "pend" command, if it ran
 	prior    chan error     // a command channel already installed in the pre-state (CMDCHAN)
+	priorUnbuffered bool
+	priorDone       bool
+	priorFailed     bool
 	lineCtr  int
 	lines    map[*tree.Statement]string // opaque line statement -> its text
 	waiting  *tree.ShortcutOptionStatement
@@ -337,18 +340,22 @@ func vNewWorld(budget int, allowBad bool) *vWorld {
 
 	// ---- a command started earlier: nil | still pending | completed with nil | completed with an error ----
 	if vParam("CMDCHAN", 0) != 0 && w.waiting == nil {
-		switch vChoose("cmdchan", 4) {
-		case 1:
-			w.prior = make(chan error, 1)
-		case 2:
-			w.prior = make(chan error, 1)
-			w.prior <- nil
-		case 3:
-			w.prior = make(chan error, 1)
-			w.prior <- errWaitingForCommandCompletion("earlier command failed")
-		}
-		if w.prior != nil {
+		state := vChoose("cmdchan", 4)
+		if state != 0 {
+			// the handler's channel: buffered, or unbuffered with the handler's goroutine blocked in its send
+			w.priorUnbuffered = vChoose("cmdchan.unbuffered", 2) == 1
+			if w.priorUnbuffered {
+				w.prior = make(chan error)
+			} else {
+				w.prior = make(chan error, 1)
+			}
 			dr.commandErrChan = w.prior
+			switch state {
+			case 2:
+				w.completePrior(false)
+			case 3:
+				w.completePrior(true)
+			}
 		}
 	}
 	// a snapshot taken at an earlier node entry: nil or arbitrary content
@@ -398,6 +405,26 @@ func vNewWorld(budget int, allowBad bool) *vWorld {
 		}
 	}
 	return w
+}
+
+// completePrior: the handler of the earlier command reports completion now (nil, an error, or by
+// closing the channel). On an unbuffered channel that is a goroutine blocked in its send.
+func (w *vWorld) completePrior(fail bool) {
+	w.priorDone, w.priorFailed = true, fail
+	ch := w.prior
+	var err error
+	if fail {
+		err = errWaitingForCommandCompletion("command failed")
+	}
+	switch {
+	case !fail && vChoose("completion.by.close", 2) == 1:
+		close(ch)
+	case w.priorUnbuffered:
+		go func() { ch <- err }()
+		vRunGoroutines()
+	default:
+		ch <- err
+	}
 }
 
 // ---- abstraction ----
